@@ -6,6 +6,13 @@ pid = sys.argv[1]
 n = sys.argv[2] if len(sys.argv) > 2 else "2"
 p = {json.loads(l)['id']: json.loads(l) for l in open('/verif/properties.jsonl')}[pid]
 wt = "/tmp/wt-" + pid
+import glob, os
+used = []
+for m in sorted(glob.glob(f"/verif/seeded/{pid}-*/meta.json")):
+    used.append("  - " + json.load(open(m))["needs_to_manifest"])
+used_txt = ""
+if used:
+    used_txt = "\n\nEarlier contributors already submitted the following changes for this property; do NOT repeat them or close variants — produce changes with a DIFFERENT mechanism at a DIFFERENT site, and prefer parts of the property they did not touch:\n" + "\n".join(used)
 print(f"""You are working alone in a git worktree of the open-source project Workiva/frugal at {wt} (a Thrift-superset IDL compiler written in Go: main.go, compiler/...; plus a Go runtime library in lib/go with framed FContext protocol, multiplexed client transports, servers and pub/sub). Work ONLY inside {wt}; do not read or use /verif or /repo or any other directory (the Go module cache and toolchain are fine). No network. Every shell call needs: export GOFLAGS=-mod=mod GOPROXY=off GOSUMDB=off GOTOOLCHAIN=local
 
 A semantic property that users of this project rely on:
@@ -21,7 +28,7 @@ Your task: act as a source of realistic regressions. Produce {n} independent sou
   3. passes the project's existing test suite UNCHANGED — run tests ONLY through the serializing wrapper (the tests listen on fixed TCP ports): `/tmp/repo_tests.sh {wt}/lib/go` and `/tmp/repo_tests.sh {wt} ./compiler/...` (both must end with ok lines, no FAIL),
   4. is realistic: the kind of slip a maintainer makes in a refactoring, an optimisation or a "simplification" — small (a few lines), plausible, not sabotage, no new files, no debug leftovers,
   5. needs something SPECIFIC to manifest: a particular interleaving, a crash or fault at a particular point, a multi-step sequence of operations, an unusual input, or two cooperating sites that each look fine alone. NOT something that ordinary use or a single obvious call would expose at once.
-Read the relevant code carefully first, and read the existing tests to see what they pin (your change must not be caught by them).
+Read the relevant code carefully first, and read the existing tests to see what they pin (your change must not be caught by them).{used_txt}
 
 For each change deliver, under {wt}/SEEDED/<k>/ (k = 1, 2, ...):
   * patch.diff — `git diff` of the source change ONLY (no demo files), relative to the worktree root, applicable with `git apply` on the worktree's base commit;
